@@ -47,6 +47,11 @@ FP(op) ==
     [] op = "ts-merge"        -> [r |-> {"typesystem"}, w |-> {}, lock |-> {}]       \* the target is private to the caller
     \* binding one (Go type, schema type) pair with and without the custom converter that makes it compatible: the
     \* verdict (accepted / refused) is a function of the call's own arguments, so neither writes anything shared
+    \* path resolution and a focused transform over a SHARED tree (the transform builds a new tree), and compiling a
+    \* selector from a shared selector document followed by a walk with the private result
+    [] op = "focus-get"       -> [r |-> {"node.basic", "linksystem", "store", "registry"}, w |-> {}, lock |-> {}]
+    [] op = "transform"       -> [r |-> {"node.basic", "linksystem", "store", "registry"}, w |-> {}, lock |-> {}]
+    [] op = "compile-selector" -> [r |-> {"selector.dmt", "node.basic", "linksystem", "store", "registry"}, w |-> {}, lock |-> {}]
     [] op = "bind-plain"      -> [r |-> {"typesystem"}, w |-> {}, lock |-> {}]
     [] op = "bind-converter"  -> [r |-> {"typesystem"}, w |-> {}, lock |-> {}]
 
